@@ -1,5 +1,6 @@
 import Hub.Model.Dump
 import Hub.Model.Monitors
+import Hub.Model.Run
 /-
 Line-protocol driver of the model (core-only, runs as `lake env lean --run Main.lean` or as the
 compiled `hubmodel`).  Reads one operation per line on stdin, answers in the format of the
@@ -110,12 +111,7 @@ def applyInit (f : Fields) (s : State) : State :=
       approveBy := fbytes f "approveBy" } }
 
 def applyBal (f : Fields) (s : State) : State :=
-  let a := fbytes f "addr"
-  let d := fget f "denom"
-  let v := fint f "amt"
-  if v = 0 then s else
-  let s := setBalance s a d (balance s a d + v)
-  { s with supply := s.supply.set d (supplyOf s d + v) }
+  addBalance s (fbytes f "addr", fget f "denom", fint f "amt")
 
 /-- sorted-list difference: lines only in `old` get "-", lines only in `new` get "+". -/
 partial def delta : List String → List String → List String
